@@ -186,6 +186,8 @@ type exprGen struct {
 	set  *sampleSet
 	hint *series // the query time was chosen for this series: selectors prefer to select it
 	multi bool   // selectors prefer to match several metric names (under a `without` aggregation)
+	qStart, qEnd, qStep int64 // the query's times (known before the expression is generated)
+	noMulti             bool  // inside a subquery: no regex on the metric name
 	avoid bool   // keep clear of the triggers of the known findings (empty-value matchers, regexes that
 	// behave differently unanchored); 80 % of the cases, so that fewer cases are masked by them
 }
@@ -255,7 +257,7 @@ func (g *exprGen) genSelector() *selector {
 			}
 		}
 	}
-	if !hinted && (g.r.Chance(8) || (g.multi && g.r.Chance(60))) && len(g.info.names) > 1 {
+	if !hinted && !g.noMulti && (g.r.Chance(8) || (g.multi && g.r.Chance(60))) && len(g.info.names) > 1 {
 		// a regex on the metric name
 		s.matchers = append(s.matchers, matcher{label: "__name__", kind: "re", re: &rx{kind: "alt", a: &rx{kind: "lit", s: g.info.names[0]}, b: &rx{kind: "lit", s: g.info.names[1]}}})
 	} else {
@@ -338,6 +340,20 @@ func (g *exprGen) genSelector() *selector {
 	if (!hinted && g.r.Chance(25)) || (hinted && g.r.Chance(5)) {
 		s.offset = []int64{30_000, 300_000, 420_000, 1, 60_000, 15_000, -30_000, 1_500}[g.r.Intn(8)]
 	}
+	if !hinted && g.r.Chance(6) {
+		var at int64
+		switch g.r.Intn(4) {
+		case 0:
+			at, s.atKind = g.qStart, "start"
+		case 1:
+			at, s.atKind = g.qEnd, "end"
+		case 2:
+			at, s.atKind = g.info.times[g.r.Intn(len(g.info.times))], "num"
+		default:
+			at, s.atKind = g.qStart+int64(g.r.Intn(120_000))-60_000, "num"
+		}
+		s.at = &at
+	}
 	return s
 }
 
@@ -414,6 +430,105 @@ func (g *exprGen) genLabels() []string {
 }
 
 func (g *exprGen) genVector(t int64, depth int) expr {
+	if y := g.r.Intn(100); y < 24 {
+		switch {
+		case y < 5: // timestamp()
+			if g.r.Chance(70) || depth <= 0 {
+				sel := g.genSelector()
+				sel.at = nil // timestamp(m @ T): the engine wraps the argument as step invariant; not in the subset
+				return &tsExpr{e: sel}
+			}
+			return &tsExpr{e: g.genVector(t, depth-1)}
+		case y < 11: // subquery under a range function
+			sq := &subqExpr{fn: g.pick(rangeFns), rng: []int64{60_000, 120_000, 300_000, 90_000}[g.r.Intn(4)],
+				stp: []int64{10_000, 15_000, 30_000, 7_000, 60_000}[g.r.Intn(5)]}
+			if sq.rng < g.qStep {
+				sq.rng = g.qStep
+			}
+			if g.r.Chance(20) {
+				sq.off = []int64{30_000, 60_000, 15_000}[g.r.Intn(3)]
+			}
+			old := g.noMulti
+			g.noMulti = true
+			d := depth - 1
+			if d > 1 {
+				d = 1
+			}
+			sq.e = g.genVector(t, d)
+			g.noMulti = old
+			return sq
+		case y < 16 && depth > 0: // topk / bottomk / quantile
+			k := &kaggExpr{op: g.pick([]string{"topk", "bottomk", "quantile"}), without: g.r.Chance(40), labels: g.genLabels()}
+			if k.op == "quantile" {
+				k.param = []float64{0, 0.5, 0.9, 1, 0.25, 1.5, -1, 0.75}[g.r.Intn(8)]
+			} else {
+				k.param = float64([]int{1, 2, 3, 1, 2, 0, 5}[g.r.Intn(7)])
+			}
+			if g.r.Chance(60) {
+				k.e = g.genSelector()
+			} else {
+				k.e = g.genVector(t, depth-1)
+			}
+			return k
+		case y < 20 && depth > 0: // and / or / unless
+			x := &setExpr{op: g.pick([]string{"and", "or", "unless"}), match: "none"}
+			x.l, x.r = g.genVector(t, depth-1), g.genVector(t, depth-1)
+			g.sameMetric(x.l, x.r, 70)
+			switch g.r.Intn(3) {
+			case 1:
+				x.match, x.labels = "on", g.genLabels()
+			case 2:
+				x.match, x.labels = "ign", g.genLabels()
+			}
+			return x
+		case y < 24 && depth > 0: // group_left / group_right
+			on := g.genLabels()
+			if len(on) == 0 {
+				on = []string{"job"}
+			}
+			var extra []string
+			if g.r.Chance(35) {
+				for _, ln := range labelNames {
+					has := false
+					for _, o := range on {
+						if o == ln {
+							has = true
+						}
+					}
+					if !has && g.r.Chance(50) {
+						extra = append(extra, ln)
+					}
+				}
+			}
+			many := g.genSelector()
+			if g.r.Chance(30) {
+				many.offset = 0
+			}
+			var manyE expr = many
+			if g.r.Chance(30) {
+				manyE = g.genRangeFn(t)
+			}
+			oneSel := g.genSelector()
+			oneSel.matchers = oneSel.matchers[:1]
+			if first := firstSelector(manyE); first != nil && g.r.Chance(70) {
+				oneSel.matchers[0], oneSel.braces = first.matchers[0], first.braces
+			}
+			one := &aggExpr{op: g.pick([]string{"sum", "max", "min", "count"}), labels: append(append([]string{}, on...), extra...), e: oneSel}
+			b := &binExpr{match: "on", labels: on, include: extra}
+			if g.r.Chance(60) {
+				b.op = g.pick(arithOps)
+			} else {
+				b.op = g.pick(cmpOps)
+				b.isBool = g.r.Chance(35)
+			}
+			if g.r.Chance(70) {
+				b.group, b.l, b.r = "left", manyE, one
+			} else {
+				b.group, b.l, b.r = "right", one, manyE
+			}
+			return b
+		}
+	}
 	x := g.r.Intn(100)
 	switch {
 	case depth <= 0 || x < 25:
@@ -433,6 +548,34 @@ func (g *exprGen) genVector(t int64, depth int) expr {
 	default:
 		return g.genBin(t, depth-1)
 	}
+}
+
+func firstSelector(e expr) *selector {
+	var first *selector
+	e.walk(func(x expr) {
+		if sl, ok := x.(*selector); ok && first == nil {
+			first = sl
+		}
+	})
+	return first
+}
+
+// sameMetric: with the given chance the selectors of r take the metric of the first selector of l
+// (otherwise most label sets have no partner).
+func (g *exprGen) sameMetric(l, r expr, chance int) {
+	if !g.r.Chance(chance) {
+		return
+	}
+	first := firstSelector(l)
+	r.walk(func(x expr) {
+		if sl, ok := x.(*selector); ok && first != nil {
+			sl.matchers[0] = first.matchers[0]
+			sl.braces = first.braces
+			if g.r.Chance(50) {
+				sl.matchers = sl.matchers[:1]
+			}
+		}
+	})
 }
 
 var arithOps = []string{"+", "-", "*", "/"}
@@ -459,24 +602,7 @@ func (g *exprGen) genBin(t int64, depth int) expr {
 		b.l, b.r = num(), g.genVector(t, depth)
 	default:
 		b.l, b.r = g.genVector(t, depth), g.genVector(t, depth)
-		if g.r.Chance(60) {
-			// same metric on both sides (otherwise most label sets have no partner)
-			var first *selector
-			b.l.walk(func(x expr) {
-				if sl, ok := x.(*selector); ok && first == nil {
-					first = sl
-				}
-			})
-			b.r.walk(func(x expr) {
-				if sl, ok := x.(*selector); ok && first != nil {
-					sl.matchers[0] = first.matchers[0]
-					sl.braces = first.braces
-					if g.r.Chance(50) {
-						sl.matchers = sl.matchers[:1]
-					}
-				}
-			})
-		}
+		g.sameMetric(b.l, b.r, 60)
 		switch g.r.Intn(3) {
 		case 1:
 			b.match, b.labels = "on", g.genLabels()
@@ -525,17 +651,7 @@ func (g *exprGen) genQuery(avoid bool) *query {
 	g.hint = nil
 	g.avoid = avoid
 	t := g.evalTime()
-	depth := 0
-	switch x := g.r.Intn(10); {
-	case x < 3:
-		depth = 0
-	case x < 7:
-		depth = 1
-	default:
-		depth = 2
-	}
-	e := g.genVector(t, depth)
-	q := &query{e: e, text: e.text(), start: t, end: t, lb: lookbackMs}
+	q := &query{start: t, end: t, lb: lookbackMs}
 	if g.hint == nil && g.r.Chance(10) {
 		q.lb = []int64{60_000, 120_000, 600_000, 45_500}[g.r.Intn(4)]
 	}
@@ -547,5 +663,17 @@ func (g *exprGen) genQuery(avoid bool) *query {
 			q.end += int64(g.r.Intn(int(q.step))) // end not on a step
 		}
 	}
+	g.qStart, g.qEnd, g.qStep = q.start, q.end, q.step
+	depth := 0
+	switch x := g.r.Intn(10); {
+	case x < 3:
+		depth = 0
+	case x < 7:
+		depth = 1
+	default:
+		depth = 2
+	}
+	q.e = g.genVector(t, depth)
+	q.text = q.e.text()
 	return q
 }
